@@ -52,7 +52,7 @@ type RaftGroup struct {
 	done    chan struct{}
 }
 
-func startRaftNode(id uint64, nodeIds []uint64, storage wal.WAL, logger *log.Entry) (etcdRaft.Node, error) {
+func startRaftNode(id uint64, address string, nodeIds []uint64, storage wal.WAL, logger *log.Entry) (etcdRaft.Node, error) {
 	raftConfig := &etcdRaft.Config{
 		ID:              id,
 		ElectionTick:    10,
@@ -80,7 +80,13 @@ func startRaftNode(id uint64, nodeIds []uint64, storage wal.WAL, logger *log.Ent
 
 		var peers []etcdRaft.Peer
 		for _, nodeId := range nodeIds {
-			peers = append(peers, etcdRaft.Peer{ID: nodeId})
+			peer := etcdRaft.Peer{ID: nodeId}
+			if nodeId == id {
+				// The bootstrap entry is the only record of this node's address
+				// for members that replay the membership log
+				peer.Context = []byte(address)
+			}
+			peers = append(peers, peer)
 		}
 		return etcdRaft.StartNode(raftConfig, peers), nil
 	} else {
@@ -96,7 +102,7 @@ func NewRaftGroup(id uuid.UUID, nodeIds []uint64, storage wal.WAL, transport *Ra
 	})
 
 	ctx, ctxCancel := context.WithCancel(context.Background())
-	raftNode, err := startRaftNode(transport.NodeId(), nodeIds, storage, logger)
+	raftNode, err := startRaftNode(transport.NodeId(), transport.Address(), nodeIds, storage, logger)
 	if err != nil {
 		return nil, err
 	}
